@@ -39,17 +39,29 @@ NEAR = {"dateTime": ["2021-02-20T00:00:00.Z", "2020-01-01T00:00:00z", "2020-1-1T
                      # zone designators outside the lexical space (minutes above 59, offsets above 14:00, wrong shapes)
                      "2020-01-01T00:00:00+05:75", "2020-01-01T00:00:00-00:60", "2020-01-01T00:00:00-13:60", "2020-01-01T00:00:00+14:01",
                      "2020-01-01T00:00:00+24:00", "2020-01-01T00:00:00+5:00", "2020-01-01T00:00:00+0500", "2020-01-01T00:00:00Z+01:00",
-                     "2020-01-01T00:00:00+01", "2020-01-01T00:00:60Z" if False else "2020-01-01T00:00:00 Z"],
-        "boolean": ["TRUE", "True", "False", "yes", "", "01", "t"],
-        "integer": ["1_0", "\u0661\u0662", "", "1e3", "0x10", "1 0", "--1", "+"],
-        "nonNegativeInteger": ["1_0", "\u0661\u0662", "", "-1_0"], "positiveInteger": ["1_0", "\u0661", "", "-3"], "PositiveInteger": ["1_0", "\u0661", ""],
-        "unsignedShort": ["1_0", "\u0661", "65536", ""], "unsignedByte": ["2_5", "256", ""], "unsignedInt": ["1_0", "4294967296", ""],
-        "unsignedLong": ["1_0", "18446744073709551616", ""],
-        "duration": ["P1.5D", "P1DT1H1M1.S", "PT1D", "P", "PT", "P1S", "1D", "p1d", "P-1D", "P1DT", ""]}
+                     "2020-01-01T00:00:00+01", "2020-01-01T00:00:00 Z",
+                     # (second 60 is left alone: a leap second to ISO 8601 and XSD 1.0, outside the value space to XSD 1.1)
+                     "2020-01-01T00:00:61Z", "2020-01-01T00:00:99Z",
+                     # padded with characters that are white space to str.strip() and not to XML (S ::= #x20 | #x9 | #xD | #xA)
+                     "2020-01-01T00:00:00Z\u00a0", "\u20282020-01-01T00:00:00Z", "\u30002020-01-01T00:00:00Z\u3000", "2020-01-01T00:00:00Z\x0c"],
+        "boolean": ["TRUE", "True", "False", "yes", "", "01", "t", "true\u00a0", "\u30001", "false\x0b", "\u20280"],
+        "integer": ["1_0", "\u0661\u0662", "", "1e3", "0x10", "1 0", "--1", "+", "5\u00a0", "\x1c5"],
+        "nonNegativeInteger": ["1_0", "\u0661\u0662", "", "-1_0", "3\u00a0"], "positiveInteger": ["1_0", "\u0661", "", "-3", "3\u2028"],
+        "PositiveInteger": ["1_0", "\u0661", "", "\u00a03"],
+        "unsignedShort": ["1_0", "\u0661", "65536", "", "7\u00a0", "\x0c7"], "unsignedByte": ["2_5", "256", "", "7\u3000"], "unsignedInt": ["1_0", "4294967296", "", "7\u00a0"],
+        "unsignedLong": ["1_0", "18446744073709551616", "", "\u20287"],
+        "duration": ["P1.5D", "P1DT1H1M1.S", "PT1D", "P", "PT", "P1S", "1D", "p1d", "P-1D", "P1DT", "", "PT5M\u00a0", "\u3000P1D"]}
 for _k, _v in NEAR.items():
     BAD.setdefault(_k, [])
     BAD[_k] = BAD[_k] + [x for x in _v if x not in BAD[_k]]
 BAD["datetime"] = BAD["datetime"] + [x for x in NEAR["dateTime"] if x not in BAD["datetime"]]
+
+
+# instances the class-specific verify() rules must accept (the generator of minimal instances steers clear of these members)
+CLASS_RULE_VALID = {
+    "SubjectLocality": [{"dns_name": "idp.example.org"}, {"dns_name": "login-2.idp.example.co.uk"}, {"dns_name": "localhost"}, {"address": "192.0.2.17"},
+                        {"address": "2001:db8::17"}, {"address": "192.0.2.17", "dns_name": "idp.example.org"}],
+}
 
 
 XSI = "http://www.w3.org/2001/XMLSchema-instance"
@@ -322,6 +334,20 @@ def run_case(case, ctx):
     if not expect_ok(base, "minimal instance", [case["module"], case["cls"], "minimal", "-", "-", "root"]):
         return {"outcome": "valid-rejected", "nontrivial": True, "violations": viol[:3], "counters": counters, "sigs": sigs, "evals": 1}
 
+    # class-specific rules, accept direction: what the class's own verify() is there to let through must get through, at the root and nested
+    for member_values in CLASS_RULE_VALID.get(case["cls"], []):
+        i = minimal(cls)
+        for m_, v_ in member_values.items():
+            setattr(i, m_, v_)
+        expect_ok(i, "with %r (class rule)" % (member_values,), [case["module"], case["cls"], "class-rule-valid", repr(sorted(member_values.items())), "-", "root"])
+        for (pcls, member, is_list) in parents_of(cls)[:2]:
+            if not _parent_ok(pcls):
+                continue
+            p_ = minimal(pcls, 3)
+            setattr(p_, member, [i] if is_list else i)
+            expect_ok(p_, "with %r (class rule) as %s of %s" % (member_values, member, pcls.__name__),
+                      [case["module"], case["cls"], "class-rule-valid", repr(sorted(member_values.items())), "-", "under:" + pcls.__name__])
+
     ps = parents_of(cls)
     positions = rng.sample(ps, min(case["parents"], len(ps)))
     # parents whose own minimal instance is invalid cannot host the nested experiment
@@ -450,7 +476,7 @@ def run_case(case, ctx):
         uniq.setdefault(v["key"] + v["what"][:80], v)
     out = list(uniq.values())
     return {"outcome": "violations" if viol else "held", "nontrivial": True, "violations": out[:12], "counters": counters,
-            "sigs": sigs, "evals": counters.get("accept_direction", 0) + counters.get("reject_direction", 0) + counters.get("reject_direction_nested", 0) + counters.get("reject_direction_parsed_text", 0) + counters.get("reject_direction_decorated", 0),
+            "sigs": sigs, "evals": counters.get("accept_direction", 0) + counters.get("reject_direction", 0) + counters.get("reject_direction_nested", 0) + counters.get("reject_direction_parsed_text", 0) + counters.get("reject_direction_decorated", 0) + counters.get("parsed_duplicate_refused_by_parser", 0),
             "obs": {"attributes": len(cls.c_attributes), "cardinality_entries": len(cls.c_cardinality)}}
 
 
